@@ -168,7 +168,7 @@ pub fn run(ctx: &Ctx) -> ! {
         }
         // single-bit flips: all of them (thorough), a seeded quarter (quick)
         for b in 0..size * 8 {
-            if ctx.quick() && rng.below(4) != 0 {
+            if ctx.quick() && std::env::var_os("VERIF_C04_SAMPLE_BITS").is_some() && rng.below(4) != 0 {
                 exhaustive_bits = false;
                 continue;
             }
@@ -192,7 +192,7 @@ pub fn run(ctx: &Ctx) -> ! {
 
     // --- fault-free corpus + generator worlds under all scheduler modes: panics that need an interleaving or a history
     let items = c14::items(true);
-    let n_sessions = if ctx.quick() { 300 } else { 8_000 };
+    let n_sessions = if ctx.quick() { 600 } else { 8_000 };
     let max_nodes = if ctx.quick() { 4 } else { 8 };
     let mut sessions = vec![];
     for j in 0..n_sessions {
@@ -201,7 +201,7 @@ pub fn run(ctx: &Ctx) -> ! {
         sessions.push(s);
     }
     // generator G programs (compile + run, one node): target-operation shapes the corpora do not contain
-    let n_gen = if ctx.quick() { 4_000 } else { 100_000 };
+    let n_gen = if ctx.quick() { 12_000 } else { 150_000 };
     let mut gworlds = vec![];
     for i in 0..n_gen {
         let mut sub = rng.derive(0x6000_0000 + i as u64);
